@@ -670,5 +670,140 @@ func (e *Engine) mnemonicTableObligations() []*Obligation {
 		ob2.Output = strings.Join(mixed, "; ")
 		ob2.Src += " -- " + ob2.Output
 	}
-	return []*Obligation{ob, ob2}
+	// every table that is turned round for reading (reverseInt8/16/reverseInt in the package initialiser) is
+	// injective: two codes with the same mnemonic print alike and only one of them can be read back
+	reversed := map[string]bool{}
+	type kv struct{ k, v string }
+	entries := map[string][]kv{}
+	for _, n := range names {
+		fn := e.funcs[n]
+		if fn == nil || fn.Pkg == nil || fn.Pkg.Pkg.Path() != dnsPath || !strings.HasPrefix(n, "init") {
+			continue
+		}
+		for _, b := range fn.Blocks {
+			for _, in := range b.Instrs {
+				switch x := in.(type) {
+				case *ssa.Call:
+					if cal := x.Call.StaticCallee(); cal != nil && strings.HasPrefix(cal.Name(), "reverseInt") && len(x.Call.Args) == 1 {
+						if ld, ok := x.Call.Args[0].(*ssa.UnOp); ok {
+							if g, ok := ld.X.(*ssa.Global); ok {
+								reversed[g.Name()] = true
+							}
+						}
+					}
+				case *ssa.MapUpdate:
+					mm, ok := x.Map.(*ssa.MakeMap)
+					if !ok || mm.Referrers() == nil {
+						continue
+					}
+					for _, r := range *mm.Referrers() {
+						if st, ok := r.(*ssa.Store); ok {
+							if g, ok := st.Addr.(*ssa.Global); ok {
+								kc, ok1 := x.Key.(*ssa.Const)
+								vc, ok2 := x.Value.(*ssa.Const)
+								if ok1 && ok2 && kc.Value != nil && vc.Value != nil && vc.Value.Kind() == constant.String {
+									entries[g.Name()] = append(entries[g.Name()], kv{kc.Value.ExactString(), constant.StringVal(vc.Value)})
+								}
+							}
+						}
+					}
+				}
+			}
+		}
+	}
+	var dups []string
+	var tabs []string
+	for g := range reversed {
+		tabs = append(tabs, g)
+	}
+	sortStrings(tabs)
+	for _, g := range tabs {
+		seen := map[string]string{}
+		for _, e := range entries[g] {
+			if o, ok := seen[e.v]; ok && o != e.k {
+				dups = append(dups, fmt.Sprintf("%s maps both %s and %s to %q", g, o, e.k, e.v))
+			}
+			seen[e.v] = e.k
+		}
+	}
+	ob3 := &Obligation{Fn: "reverseInt16", Name: "reverseInt16#tables.injective", Kind: "layout", Solver: "structural matcher (SSA data flow)"}
+	ob3.Src = fmt.Sprintf("the %d code-to-mnemonic tables that are reversed for reading (%s) give no two codes the same mnemonic", len(tabs), strings.Join(tabs, ", "))
+	ob3.Clause = &Clause{Label: "tables.injective", Src: ob3.Src}
+	if fn := e.funcs["reverseInt16"]; fn != nil {
+		ob3.Pos = fn.Pos()
+	}
+	if len(tabs) < 5 {
+		ob3.Status = "failed"
+		ob3.Src += " -- fewer reversed tables found than the package has; the matcher no longer recognises the initialiser"
+	} else if len(dups) == 0 {
+		ob3.Status = "proved"
+	} else {
+		ob3.Status = "failed"
+		ob3.Output = strings.Join(dups, "; ")
+		ob3.Src += " -- " + ob3.Output
+	}
+	return []*Obligation{ob, ob2, ob3}
+}
+
+// mapLiteralEntries: the constant key/value pairs that the package initialiser stores into the package-level map
+// variable named g (keys and values rendered as exact constant strings).
+func (e *Engine) mapLiteralEntries(g string) map[string]string {
+	out := map[string]string{}
+	for n, fn := range e.funcs {
+		if fn == nil || fn.Pkg == nil || fn.Pkg.Pkg.Path() != dnsPath || !strings.HasPrefix(n, "init") {
+			continue
+		}
+		for _, b := range fn.Blocks {
+			for _, in := range b.Instrs {
+				x, ok := in.(*ssa.MapUpdate)
+				if !ok {
+					continue
+				}
+				mm, ok := x.Map.(*ssa.MakeMap)
+				if !ok || mm.Referrers() == nil {
+					continue
+				}
+				for _, r := range *mm.Referrers() {
+					if st, ok := r.(*ssa.Store); ok {
+						if gl, ok := st.Addr.(*ssa.Global); ok && gl.Name() == g {
+							kc, ok1 := x.Key.(*ssa.Const)
+							vc, ok2 := x.Value.(*ssa.Const)
+							if ok1 && ok2 && kc.Value != nil && vc.Value != nil {
+								out[kc.Value.ExactString()] = vc.Value.ExactString()
+							}
+						}
+					}
+				}
+			}
+		}
+	}
+	return out
+}
+
+// algorithmTableObligations: AlgorithmToHash, the table hashFromAlgorithm reads, gives every signing algorithm the
+// library supports the digest its RFC names (RFC 3110, 5155, 5702, 6605, 8080; crypto.Hash numbers SHA1 3, SHA256 5,
+// SHA384 6, SHA512 7; 0 stands for "signs the message itself").
+func (e *Engine) algorithmTableObligations() []*Obligation {
+	want := map[string]string{"5": "3", "7": "3", "8": "5", "10": "7", "13": "5", "14": "6", "15": "0"}
+	got := e.mapLiteralEntries("AlgorithmToHash")
+	var bad []string
+	for _, k := range []string{"5", "7", "8", "10", "13", "14", "15"} {
+		if got[k] != want[k] {
+			bad = append(bad, fmt.Sprintf("algorithm %s: digest %q, want crypto.Hash %s", k, got[k], want[k]))
+		}
+	}
+	ob := &Obligation{Fn: "hashFromAlgorithm", Name: "hashFromAlgorithm#table.algorithms", Kind: "layout", Solver: "structural matcher (SSA data flow)"}
+	ob.Src = "AlgorithmToHash maps the signing algorithms 5, 7, 8, 10, 13, 14, 15 to SHA-1, SHA-1, SHA-256, SHA-512, SHA-256, SHA-384 and the identity"
+	ob.Clause = &Clause{Label: "table.algorithms", Src: ob.Src}
+	if fn := e.funcs["hashFromAlgorithm"]; fn != nil {
+		ob.Pos = fn.Pos()
+	}
+	if len(bad) == 0 {
+		ob.Status = "proved"
+	} else {
+		ob.Status = "failed"
+		ob.Output = strings.Join(bad, "; ")
+		ob.Src += " -- " + ob.Output
+	}
+	return []*Obligation{ob}
 }
